@@ -100,7 +100,7 @@ pub const SITES: [Site; NSITES] = [
     site!("liquid", &["none", "water", "magma"], 1, chunk),
     site!("extras", &["none", "mcmt", "mcdd", "mcbb"], 0, chunk),
     Site { name: "water", vals: &["none", "c0", "c255", "c0_17_255", "present_empty"], full: 3, full_from: 3, full_to: 5, per_chunk: false },
-    Site { name: "water_fmt", vals: &["plain_attrs", "lvf0_bitmap", "lvf1_full", "lvf2_bitmap_attrs", "lvf3", "two_layers"], full: 5, full_from: 3, full_to: 5, per_chunk: false },
+    Site { name: "water_fmt", vals: &["plain_attrs", "lvf0_bitmap", "lvf1_full", "lvf2_bitmap_attrs", "lvf3", "two_layers", "bitmap_no_vertices_attrs", "two_layers_last_bitmap_only"], full: 5, full_from: 3, full_to: 5, per_chunk: false },
     site!("flight_bounds", &["off", "on"], 1, 2),
     site!("mtxf", &["none", "per_texture"], 1, 3),
     site!("mamp", &["off", "on"], 1, 4),
@@ -523,6 +523,17 @@ fn water_entry(fmt: &str, ci: usize) -> Mh2oEntry {
                 exists_bitmaps: vec![Some(0xBEEF), None],
                 attributes: attrs,
             }
+        }
+        // flat liquid (min/max height only) with a partial-coverage mask: bitmap without vertex data
+        "bitmap_no_vertices_attrs" => {
+            let i = inst(5, 0, 2, 1, 4, 6);
+            Mh2oEntry { header, instances: vec![i], vertex_data: vec![None], exists_bitmaps: vec![Some(0x00C3_5A0F)], attributes: attrs }
+        }
+        "two_layers_last_bitmap_only" => {
+            let a = inst(2, 1, 0, 0, 8, 8);
+            let b = inst(5, 0, 3, 3, 2, 2);
+            let va = hu(&a);
+            Mh2oEntry { header, instances: vec![a, b], vertex_data: vec![Some(va), None], exists_bitmaps: vec![None, Some(0b1001)], attributes: None }
         }
         _ => unreachable!(),
     }
